@@ -162,10 +162,15 @@ UNARY = dict(exp=exp, expm1=expm1, sin=lambda u: sincos(u)[0], cos=lambda u: sin
              log1p=log1p, log=log, sqrt=sqrt, pow32=lambda v: power(v, 1.5), powm12=lambda v: power(v, -0.5))
 
 
-def run_program(prog, c, p):
-    """jet (K+1 floats, in x) of the ExprMachine program at inner base value p, with u = c*(x - a) + p"""
+def run_program(prog, c, p, want_scale=False):
+    """jet (K+1 floats, in x) of the ExprMachine program at inner base value p, with u = c*(x - a) + p.
+    want_scale: also return the size of the INTERMEDIATE values (largest of the first seven coefficients of every register the
+    program passes through): a program that cancels (arcsinh(u) - tanh(u), log(exp(u)) - u) is evaluated by numpy with rounding
+    noise proportional to its operands, not to its result"""
     A, B = var(p, c), None
+    iscale = max(abs(t) for t in A[:7])
     for op in prog[1:]:
+        iscale = max([iscale] + [abs(t) for t in A[:7] if math.isfinite(t)] + ([abs(t) for t in B[:7] if math.isfinite(t)] if B is not None else []))
         if op in UNARY:
             A = UNARY[op](A)
         elif op == 'ipow2':
@@ -196,4 +201,5 @@ def run_program(prog, c, p):
             raise ValueError('unknown op %r' % op)
     if not all(math.isfinite(x) for x in A):
         raise DomainError('overflow')
-    return A
+    iscale = max([iscale] + [abs(t) for t in A[:7]])
+    return (A, iscale) if want_scale else A
